@@ -36,6 +36,9 @@ the item ever had (0-based, in order of first appearance), `g` unrelated bytes.
 `wire` is the byte form of the submitted signature: `c` (default) r‖s‖v with v∈{0,1}, `h` the twin
 (r, n−s, v xor 1), `w` v spelled 27/28, `r` v+2, `s` 64 bytes, `l` 66 bytes.
 `relay` answers `offeredPage` (the offered list cut to `defaultResponseMessageCount`).
+`put` / `putn` store `senderOf kind sender` (only SubmitLogicCall / UploadUserSmartContract have a sender);
+`bput` with a nonce that is not above every earlier nonce of the case creates nothing (the real nonces come
+from an auto-increment counter) and prints the batch already stored under it.
 -/
 namespace Driver.Queue
 open Paloma.Queue
